@@ -112,6 +112,8 @@ def lattice_view(pc, lattice):
     for k, c in enumerate(concepts):
         if c.index != k:
             raise Disagreement('concept.index %r at position %d' % (c.index, k))
+        if getattr(c, 'lattice', lattice) is not lattice:
+            raise Disagreement('concept %d of the lattice reports another object as its lattice' % k)
         try:
             up = [pos[id(u)] for u in c.upper_neighbors]
             lo = [pos[id(l)] for l in c.lower_neighbors]
